@@ -380,6 +380,10 @@ func (es *SearchEngineState) MATCHRANGE(from string, to string, not bool) {
 
 	for i := max; i >= min; i-- {
 		value := es.READ(i)
+		if value == "" {
+			// nothing left to read: no range, negated or not, matches the end of the input
+			continue
+		}
 		if (from <= value && value <= to && !not) || ((from > value || value > to) && not) {
 			es.CONSUME(i)
 			es.NEXT()
@@ -393,6 +397,10 @@ func (es *SearchEngineState) MATCHRANGE(from string, to string, not bool) {
 func (es *SearchEngineState) MATCHLETTER(not bool) {
 	// TODO I would prefer if I had a generic way to do these multirange searches
 	value := es.READ(1)
+	if value == "" {
+		es.BACKTRACK()
+		return
+	}
 	if ("a" <= value && value <= "z") || ("A" <= value && value <= "Z") {
 		if not {
 			es.BACKTRACK()
